@@ -581,7 +581,14 @@ func c09Comparators(c *Ctx, p *Prog) {
 		for k, v := range o.Assign {
 			kd := kind(o.AtomSyms[k])
 			if kd == "" {
-				c.Undecided(R, "num:atoms", site, "condition outside the table: "+k)
+				// a path of the comparator that consults anything but the two parse results, their numeric order and their
+				// NaN-ness decides the order by something other than the numbers: e.g. a digits-only fast path forgets
+				// that 007 is 7
+				if o.Term == "return" {
+					c.Bad(R, "num:extra-decision", site, "the num order is decided on a path that depends on "+truncate(k, 140)+", not only on whether the two values parse, how the parsed numbers compare and whether they are NaN: values that denote the same or ordered numbers in different spellings (007 and 8.5, 1e3 and 1000) are then ordered by their text, and the order stops being transitive")
+				} else {
+					c.Undecided(R, "num:atoms", site, "condition outside the table: "+k)
+				}
 				return
 			}
 			part[kd] = v
